@@ -15,46 +15,52 @@ use metrics::{
 };
 use serde::{Deserialize, Serialize};
 use std::panic::{catch_unwind, AssertUnwindSafe};
-use std::sync::{Arc, Mutex, OnceLock};
+use std::sync::{Arc, Mutex};
 
 // ---------------------------------------------------------------------------------------------
-// Process-wide global recorder: a router installed once per worker process; each run points it
-// at its own double when the program executes InstallGlobal.
+// Global recorder: the program's InstallGlobal step calls the real `set_global_recorder` (several
+// steps, on any thread, may race; at most one wins). The process-wide cell is put back to
+// "uninstalled" between runs through the guarded `__verif_reset_global_recorder` hook.
 
-struct Router;
-static ROUTER_TARGET: Mutex<Option<&'static LogRecorder>> = Mutex::new(None);
-static ROUTER_INSTALLED: OnceLock<bool> = OnceLock::new();
-
-fn target() -> Option<&'static LogRecorder> {
-    *ROUTER_TARGET.lock().unwrap()
+#[derive(Default)]
+struct GState {
+    /// recorders whose install call has begun
+    begun: Vec<usize>,
+    /// recorder whose install call has returned Ok
+    done: Option<usize>,
+    oks: Vec<usize>,
 }
 
-impl Recorder for Router {
+/// Two different recorders at one address: `&pair.a` (a LogRecorder) and `&pair` (a Pair, which
+/// records into `b`). Their data pointers are equal, their vtables are not.
+#[repr(C)]
+pub struct Pair {
+    a: LogRecorder,
+    b: LogRecorder,
+}
+
+impl Recorder for Pair {
     fn describe_counter(&self, k: KeyName, u: Option<Unit>, d: SharedString) {
-        if let Some(t) = target() {
-            t.describe_counter(k, u, d)
-        }
+        self.b.describe_counter(k, u, d)
     }
     fn describe_gauge(&self, k: KeyName, u: Option<Unit>, d: SharedString) {
-        if let Some(t) = target() {
-            t.describe_gauge(k, u, d)
-        }
+        self.b.describe_gauge(k, u, d)
     }
     fn describe_histogram(&self, k: KeyName, u: Option<Unit>, d: SharedString) {
-        if let Some(t) = target() {
-            t.describe_histogram(k, u, d)
-        }
+        self.b.describe_histogram(k, u, d)
     }
     fn register_counter(&self, k: &Key, m: &Metadata<'_>) -> Counter {
-        target().map(|t| t.register_counter(k, m)).unwrap_or_else(Counter::noop)
+        self.b.register_counter(k, m)
     }
     fn register_gauge(&self, k: &Key, m: &Metadata<'_>) -> Gauge {
-        target().map(|t| t.register_gauge(k, m)).unwrap_or_else(Gauge::noop)
+        self.b.register_gauge(k, m)
     }
     fn register_histogram(&self, k: &Key, m: &Metadata<'_>) -> Histogram {
-        target().map(|t| t.register_histogram(k, m)).unwrap_or_else(Histogram::noop)
+        self.b.register_histogram(k, m)
     }
 }
+
+type RecRef = &'static (dyn Recorder + Sync);
 
 // ---------------------------------------------------------------------------------------------
 // Emission sites: every arm of key_var! / metadata_var! / describe!, with what the call site spells.
@@ -194,13 +200,17 @@ pub struct Plan {
     pub threads: Vec<Vec<P>>,
     /// full profile: non-LIFO guard drops and mem::forget are generated
     pub full: bool,
+    /// recorders 0 and 1 (and 2 and 3) are two different recorders at one address
+    #[serde(default)]
+    pub aliased: bool,
 }
 
 struct Unwind;
 
 struct ThreadCtx<'a> {
     tid: u32,
-    recs: &'a [&'static LogRecorder],
+    recs: &'a [RecRef],
+    g: &'a Mutex<GState>,
     log: &'a crate::doubles::Log,
     guards: Vec<Option<(usize, LocalRecorderGuard<'static>, usize, Option<usize>)>>, // (scope id, guard, rec, impl-model prev)
     next_scope: usize,
@@ -219,21 +229,28 @@ impl<'a> ThreadCtx<'a> {
 
     fn emit(&mut self, i: usize) {
         let before = self.log.lock().unwrap().len();
-        let g_before = target().map(|t| t.id as usize);
+        let g_before = self.g.lock().unwrap().done;
         let exp = site(i % NSITES);
-        let g_after = target().map(|t| t.id as usize);
+        let (g_after, g_begun) = {
+            let g = self.g.lock().unwrap();
+            (g.done, g.begun.clone())
+        };
         *self.emitted.lock().unwrap() += 1;
         let new: Vec<Ev> = self.log.lock().unwrap()[before..].iter().filter(|e| e.tid == self.tid && (e.op.starts_with("register") || e.op.starts_with("describe"))).cloned().collect();
         let spec_local = self.spec.last().map(|s| s.1);
-        let acceptable: Vec<Option<usize>> = match spec_local {
-            Some(r) => vec![Some(r)],
+        // no local scope: the global recorder once an install has completed; while none has,
+        // nobody, or a recorder whose install call is in progress
+        let nolocal: Vec<Option<usize>> = match g_before {
+            Some(d) => vec![Some(d)],
             None => {
-                let mut v = vec![g_before];
-                if g_after != g_before {
-                    v.push(g_after);
-                }
+                let mut v = vec![None];
+                v.extend(g_begun.iter().map(|b| Some(*b)));
                 v
             }
+        };
+        let acceptable: Vec<Option<usize>> = match spec_local {
+            Some(r) => vec![Some(r)],
+            None => nolocal.clone(),
         };
         let actual: Option<usize> = new.first().map(|e| e.rec as usize);
         if new.len() > 1 {
@@ -241,16 +258,19 @@ impl<'a> ThreadCtx<'a> {
             return;
         }
         if !acceptable.contains(&actual) {
-            let impl_expect = self.impl_cur.or(g_before);
+            let impl_ok = match self.impl_cur {
+                Some(r) => actual == Some(r),
+                None => nolocal.contains(&actual),
+            };
             let mut sig = String::new();
-            if actual == impl_expect || (self.impl_cur.is_none() && actual == g_after) {
+            if impl_ok {
                 if self.forgot {
                     sig.push_str(" sig:guard-forgotten");
                 } else if self.non_lifo {
                     sig.push_str(" sig:non-lifo-guard-drop");
                 }
             }
-            let scope_live = actual.map(|a| self.spec.iter().any(|s| s.1 == a) || Some(a) == g_before || Some(a) == g_after).unwrap_or(true);
+            let scope_live = actual.map(|a| self.spec.iter().any(|s| s.1 == a) || Some(a) == g_before || Some(a) == g_after || g_begun.contains(&a)).unwrap_or(true);
             self.fail(
                 if scope_live { "dispatched-to-wrong-recorder" } else { "dispatched-to-ended-scope" },
                 format!(
@@ -310,7 +330,7 @@ impl<'a> ThreadCtx<'a> {
                 }
                 P::Install(r, slot) => {
                     let r = *r % self.recs.len();
-                    let rec: &'static LogRecorder = self.recs[r];
+                    let rec: RecRef = self.recs[r];
                     while self.guards.len() <= *slot {
                         self.guards.push(None);
                     }
@@ -353,9 +373,15 @@ impl<'a> ThreadCtx<'a> {
                     }
                 }
                 P::InstallGlobal(r) => {
-                    let mut t = ROUTER_TARGET.lock().unwrap();
-                    if t.is_none() {
-                        *t = Some(self.recs[*r % self.recs.len()]);
+                    let r = *r % self.recs.len();
+                    self.g.lock().unwrap().begun.push(r);
+                    let res = metrics::set_global_recorder(self.recs[r]);
+                    let mut g = self.g.lock().unwrap();
+                    if res.is_ok() {
+                        g.oks.push(r);
+                        if g.done.is_none() {
+                            g.done = Some(r);
+                        }
                     }
                 }
             }
@@ -454,34 +480,36 @@ impl Scenario for C01Scopes {
                 }
             })
             .collect();
-        Plan { nrec, threads, full }
+        let aliased = r.chance(300);
+        Plan { nrec, threads, full, aliased }
     }
     fn execute(&self, plan: &Plan, sched: &SchedSpec) -> RunReport {
-        // the router becomes this process's global recorder at the first run that needs one
-        fn has_global(p: &[P]) -> bool {
-            p.iter().any(|x| match x {
-                P::InstallGlobal(_) => true,
-                P::Scope(_, b) | P::Catch(b) => has_global(b),
-                _ => false,
-            })
-        }
-        if plan.threads.iter().any(|t| has_global(t)) {
-            ROUTER_INSTALLED.get_or_init(|| metrics::set_global_recorder(Router).is_ok());
-        }
-        *ROUTER_TARGET.lock().unwrap() = None;
+        metrics::__verif_reset_global_recorder();
         let log = new_log();
-        let recs: Vec<&'static LogRecorder> = (0..plan.nrec).map(|i| &*Box::leak(Box::new(LogRecorder::new(i as u32, Shared::new(log.clone()))))).collect();
+        let mut recs: Vec<RecRef> = vec![];
+        while recs.len() < plan.nrec {
+            let i = recs.len() as u32;
+            if plan.aliased && recs.len() + 1 < plan.nrec {
+                let pair: &'static Pair = Box::leak(Box::new(Pair { a: LogRecorder::new(i, Shared::new(log.clone())), b: LogRecorder::new(i + 1, Shared::new(log.clone())) }));
+                recs.push(&pair.a);
+                recs.push(pair);
+            } else {
+                let r: &'static LogRecorder = Box::leak(Box::new(LogRecorder::new(i, Shared::new(log.clone()))));
+                recs.push(r);
+            }
+        }
+        let gstate: Arc<Mutex<GState>> = Arc::new(Mutex::new(GState::default()));
         let errors: Arc<Mutex<Vec<(String, String)>>> = Arc::new(Mutex::new(vec![]));
         let emitted: Arc<Mutex<u64>> = Arc::new(Mutex::new(0));
         let p = plan.clone();
-        let (l2, e2, em2, recs2) = (log.clone(), errors.clone(), emitted.clone(), recs.clone());
+        let (l2, e2, em2, recs2, g2) = (log.clone(), errors.clone(), emitted.clone(), recs.clone(), gstate.clone());
         let sim = simulate(sched, 100_000, move || {
             let mut hs = vec![];
             for (ti, prog) in p.threads.iter().enumerate() {
                 let prog = prog.clone();
-                let (log, errors, emitted, recs) = (l2.clone(), e2.clone(), em2.clone(), recs2.clone());
+                let (log, errors, emitted, recs, g) = (l2.clone(), e2.clone(), em2.clone(), recs2.clone(), g2.clone());
                 hs.push(dsim::spawn(&format!("p{}", ti + 1), move || {
-                    let mut ctx = ThreadCtx { tid: dsim::tid(), recs: &recs, log: &log, guards: vec![], next_scope: 0, spec: vec![], impl_cur: None, forgot: false, non_lifo: false, errors: &errors, emitted: &emitted };
+                    let mut ctx = ThreadCtx { tid: dsim::tid(), recs: &recs, g: &g, log: &log, guards: vec![], next_scope: 0, spec: vec![], impl_cur: None, forgot: false, non_lifo: false, errors: &errors, emitted: &emitted };
                     let _ = ctx.run(&prog);
                     // thread exit with scopes still open: guards are dropped most-recent-first
                     while let Some(g) = ctx.guards.pop() {
@@ -493,7 +521,7 @@ impl Scenario for C01Scopes {
                 h.join();
             }
         });
-        *ROUTER_TARGET.lock().unwrap() = None;
+        metrics::__verif_reset_global_recorder();
         let mut rep = RunReport::ok(sim);
         let simr = rep.sim.as_ref().unwrap();
         let mut v = None;
@@ -501,6 +529,10 @@ impl Scenario for C01Scopes {
             v = violation("panic", format!("{:?}", simr.panics));
         } else if let Some((c, d)) = errors.lock().unwrap().first().cloned() {
             v = violation(&c, d);
+        } else if gstate.lock().unwrap().oks.len() > 1 {
+            v = violation("global-installed-twice", format!("set_global_recorder returned Ok for recorders {:?} in one process life", gstate.lock().unwrap().oks));
+        } else if !gstate.lock().unwrap().begun.is_empty() && gstate.lock().unwrap().oks.is_empty() {
+            v = violation("global-install-none-won", format!("set_global_recorder was called for {:?} on a fresh process and none succeeded", gstate.lock().unwrap().begun));
         }
         let l = log.lock().unwrap();
         let mut obs = String::new();
@@ -552,6 +584,9 @@ impl Scenario for C01Scopes {
             out
         }
         let mut out = vec![];
+        if p.aliased {
+            out.push(Plan { aliased: false, ..p.clone() });
+        }
         if p.threads.len() > 1 {
             for i in 0..p.threads.len() {
                 let mut q = p.clone();
@@ -569,10 +604,10 @@ impl Scenario for C01Scopes {
         out
     }
     fn real_components(&self) -> Vec<&'static str> {
-        vec!["metrics::{with_local_recorder, set_default_local_recorder, LocalRecorderGuard, with_recorder}", "counter!/gauge!/histogram!/describe_*! (23 call sites covering every key_var!/metadata_var!/describe! arm)", "GLOBAL_RECORDER cell (try_load on every unscoped emission)"]
+        vec!["metrics::{with_local_recorder, set_default_local_recorder, LocalRecorderGuard, with_recorder}", "counter!/gauge!/histogram!/describe_*! (23 call sites covering every key_var!/metadata_var!/describe! arm)", "set_global_recorder + GLOBAL_RECORDER cell (real install by the program's InstallGlobal step, possibly racing; try_load on every unscoped emission)"]
     }
     fn stub_components(&self) -> Vec<&'static str> {
-        vec!["thread scheduler (dsim)", "recorder doubles (owned by the harness beyond their logical scope so that a dispatch to an ended scope is observed instead of being undefined behaviour)", "the global recorder is a router installed once per worker process and pointed at the run's double by the program's InstallGlobal step (racing real installs are C02's scenario)"]
+        vec!["thread scheduler (dsim)", "recorder doubles (owned by the harness beyond their logical scope so that a dispatch to an ended scope is observed instead of being undefined behaviour)", "the process-wide global cell is put back to 'uninstalled' between runs through the guarded hook __verif_reset_global_recorder (a real process can install only once)"]
     }
     fn assumptions(&self) -> Vec<&'static str> {
         vec!["'innermost' for guards dropped out of order = the most recently installed scope that is still live on that thread", "recorders really freed while still referenced (use-after-free) is out of reach of this engine: doubles are kept alive and the dispatch is flagged instead"]
